@@ -138,3 +138,22 @@ pub fn operator_info(op: &BinaryOp) -> (u8, Assoc) {
         .map(|(prec, assoc, _, _)| (*prec, *assoc))
         .expect("All BinaryOp variants must be in PRECEDENCE_TABLE")
 }
+
+/// Binding level of a binary operator as the Pratt parser sees it: the 1-based position of
+/// its (precedence, associativity) group in the order `build_pratt_parser` registers the
+/// groups (later groups bind tighter, so `??` binds tighter than `^`).
+pub fn binding_level(op: &BinaryOp) -> u8 {
+    let mut groups: Vec<(u8, Assoc)> = Vec::new();
+    for &(prec, assoc, _, _) in PRECEDENCE_TABLE {
+        if !groups.iter().any(|(p, a)| *p == prec && *a == assoc) {
+            groups.push((prec, assoc));
+        }
+    }
+    groups.sort_by_key(|(prec, _)| *prec);
+    let (prec, assoc) = operator_info(op);
+    groups
+        .iter()
+        .position(|(p, a)| *p == prec && *a == assoc)
+        .map(|i| i as u8 + 1)
+        .expect("All BinaryOp variants must be in PRECEDENCE_TABLE")
+}
